@@ -601,8 +601,13 @@ def find_group_cohorts(
             continue
         merged_keys.update(cohort)
         allchunks = (label_chunks[member].tolist() for member in cohort)
-        chunk = tuple(set(itertools.chain(*allchunks)))
-        merged_cohorts[chunk] = cohort
+        chunk = tuple(sorted(set(itertools.chain(*allchunks))))
+        if chunk in merged_cohorts:
+            # two merged cohorts can span exactly the same blocks: they are one cohort
+            # (the graph construction relies on ascending labels within a cohort)
+            merged_cohorts[chunk] = sorted(merged_cohorts[chunk] + cohort)
+        else:
+            merged_cohorts[chunk] = cohort
 
     actual_ngroups = np.concatenate(tuple(merged_cohorts.values())).size
     expected_ngroups = present_labels.size
